@@ -1,4 +1,249 @@
 package main
 
-func runFixtures(c *Ctx, spec *propSpec) {}
-func runThorough(c *Ctx, spec *propSpec) {}
+import (
+	"bytes"
+	"fmt"
+	"os"
+	"os/exec"
+	"path/filepath"
+	"sort"
+	"strings"
+	"sync"
+)
+
+// patchOverlay applies a unified diff to copies of the affected files (in a temporary directory outside
+// the tree, removed before returning) and returns the patched contents keyed by their path in the tree.
+func patchOverlay(repo, patchFile string) (map[string][]byte, error) {
+	diff, err := os.ReadFile(patchFile)
+	if err != nil {
+		return nil, err
+	}
+	var files []string
+	for _, l := range strings.Split(string(diff), "\n") {
+		if strings.HasPrefix(l, "+++ b/") {
+			files = append(files, strings.TrimSpace(strings.TrimPrefix(l, "+++ b/")))
+		}
+	}
+	if len(files) == 0 {
+		return nil, fmt.Errorf("no files in patch")
+	}
+	tmp, err := os.MkdirTemp("", "typcheck-overlay-")
+	if err != nil {
+		return nil, err
+	}
+	defer os.RemoveAll(tmp)
+	for _, f := range files {
+		src, err := os.ReadFile(filepath.Join(repo, f))
+		if err != nil {
+			return nil, fmt.Errorf("patch names %s which the tree does not have", f)
+		}
+		dst := filepath.Join(tmp, f)
+		os.MkdirAll(filepath.Dir(dst), 0o755)
+		if err := os.WriteFile(dst, src, 0o644); err != nil {
+			return nil, err
+		}
+	}
+	cmd := exec.Command("patch", "-p1", "-s", "-f", "--no-backup-if-mismatch", "-d", tmp, "-i", patchFile)
+	var out bytes.Buffer
+	cmd.Stdout, cmd.Stderr = &out, &out
+	if err := cmd.Run(); err != nil {
+		return nil, fmt.Errorf("patch does not apply to the current tree: %s", strings.TrimSpace(out.String()))
+	}
+	ov := map[string][]byte{}
+	for _, f := range files {
+		b, err := os.ReadFile(filepath.Join(tmp, f))
+		if err != nil {
+			return nil, err
+		}
+		abs, _ := filepath.Abs(filepath.Join(repo, f))
+		ov[abs] = b
+	}
+	return ov, nil
+}
+
+type control struct {
+	file string
+	want string // fire | silent
+	kind string // mutant | seeded | refactor
+}
+
+func controlsFor(verif, prop, tier string) []control {
+	var out []control
+	muts, _ := filepath.Glob(filepath.Join(verif, "mutants", prop+"-*.diff"))
+	sort.Strings(muts)
+	if tier != "thorough" && len(muts) > 3 {
+		// quick: the reverse-of-fix mutants first (they sort after the design mutants: prefer them), then fill up
+		var pick []string
+		for _, m := range muts {
+			if strings.Contains(m, "-revertD") {
+				pick = append(pick, m)
+			}
+		}
+		for _, m := range muts {
+			if len(pick) >= 3 {
+				break
+			}
+			if !strings.Contains(m, "-revertD") {
+				pick = append(pick, m)
+			}
+		}
+		if len(pick) > 3 {
+			pick = pick[:3]
+		}
+		muts = pick
+	}
+	for _, m := range muts {
+		out = append(out, control{m, "fire", "mutant"})
+	}
+	if tier == "thorough" {
+		seeds, _ := filepath.Glob(filepath.Join(verif, "seeded", prop+"-*", "patch.diff"))
+		sort.Strings(seeds)
+		for _, s := range seeds {
+			out = append(out, control{s, "fire", "seeded"})
+		}
+	}
+	refs, _ := filepath.Glob(filepath.Join(verif, "fixtures", "refactors", prop+"-*.diff"))
+	sort.Strings(refs)
+	if tier != "thorough" && len(refs) > 2 {
+		refs = refs[:2]
+	}
+	for _, r := range refs {
+		out = append(out, control{r, "silent", "refactor"})
+	}
+	return out
+}
+
+// runFixtures: both-ways self-check of the rules on every run. Each control is a patch analysed in memory
+// (overlay) by a sub-process of this binary: breaking changes must make the check fire, behaviour-preserving
+// refactorings must leave it silent. A control that no longer applies to the tree is recorded as stale.
+func runFixtures(c *Ctx, spec *propSpec) {
+	ctrls := controlsFor(c.Verif, spec.id, c.Tier)
+	if len(ctrls) == 0 {
+		return
+	}
+	self, err := os.Executable()
+	if err != nil {
+		c.R.Notes = append(c.R.Notes, "controls skipped: cannot locate own executable")
+		return
+	}
+	results := make([]FixtureResult, len(ctrls))
+	sem := make(chan struct{}, 8)
+	var wg sync.WaitGroup
+	for i, ct := range ctrls {
+		wg.Add(1)
+		go func(i int, ct control) {
+			defer wg.Done()
+			sem <- struct{}{}
+			defer func() { <-sem }()
+			tmp, err := os.MkdirTemp("", "typcheck-ctl-")
+			if err != nil {
+				results[i] = FixtureResult{Rule: "(controls)", Fixture: ct.file, Want: ct.want, Got: "error: " + err.Error(), OK: false}
+				return
+			}
+			defer os.RemoveAll(tmp)
+			if b, err := os.ReadFile(filepath.Join(c.Verif, "known_findings.json")); err == nil {
+				os.WriteFile(filepath.Join(tmp, "known_findings.json"), b, 0o644)
+			}
+			cmd := exec.Command(self, "-prop", spec.id, "-tier", "quick", "-repo", c.Repo, "-verif", tmp, "-nofixtures", "-patch", ct.file)
+			var out bytes.Buffer
+			cmd.Stdout, cmd.Stderr = &out, &out
+			err = cmd.Run()
+			code := 0
+			if ee, ok := err.(*exec.ExitError); ok {
+				code = ee.ExitCode()
+			} else if err != nil {
+				code = -1
+			}
+			rel, _ := filepath.Rel(c.Verif, ct.file)
+			fr := FixtureResult{Rule: ct.kind, Fixture: rel, Want: ct.want}
+			switch code {
+			case 0:
+				fr.Got = "silent"
+			case 1:
+				fr.Got = "fire"
+				// the first reported obligation, for the evidence
+				for _, l := range strings.Split(out.String(), "\n") {
+					if strings.HasPrefix(l, "REFUTED") || strings.HasPrefix(l, "UNPROVEN") {
+						if len(l) > 200 {
+							l = l[:200]
+						}
+						fr.Got = "fire: " + l
+						break
+					}
+				}
+			case 3:
+				fr.Got = "stale (the patch no longer applies to the tree)"
+			default:
+				fr.Got = fmt.Sprintf("error (exit %d)", code)
+			}
+			fr.OK = strings.HasPrefix(fr.Got, ct.want) || strings.HasPrefix(fr.Got, "stale")
+			results[i] = fr
+		}(i, ct)
+	}
+	wg.Wait()
+	c.R.Fixtures = append(c.R.Fixtures, results...)
+	n, stale := 0, 0
+	for _, r := range results {
+		if strings.HasPrefix(r.Got, "stale") {
+			stale++
+		} else if r.OK {
+			n++
+		}
+	}
+	c.R.Analysed["controls_run"] = len(results)
+	c.R.Analysed["controls_ok"] = n
+	c.R.Analysed["controls_stale"] = stale
+}
+
+func runThorough(c *Ctx, spec *propSpec) {
+	// second build configuration: 32-bit target and test variants loaded; the verdicts must be identical
+	P2, err := Load(LoadOpts{Dir: c.Repo, Tags: "verif", MinPkgs: 10, GOARCH: "386", Tests: true})
+	if err != nil {
+		c.R.Unproven("second-config", "(tree)", "GOARCH=386+tests", "", "the tree does not load in the second configuration: "+err.Error())
+		return
+	}
+	R2 := NewReport(spec.id, c.Tier)
+	c2 := &Ctx{R: R2, P: P2, An: NewAnalysis(P2), Tier: c.Tier, Verif: c.Verif, Repo: c.Repo}
+	func() {
+		defer func() {
+			if r := recover(); r != nil {
+				R2.Unproven("internal", "(checker)", "panic", "", fmt.Sprintf("checker panicked in the second configuration: %v", r))
+			}
+		}()
+		spec.run(c2)
+	}()
+	v1, v2 := map[string]Verdict{}, map[string]Verdict{}
+	for _, o := range c.R.Obs {
+		v1[o.Rule+"/"+o.Construct+"/"+o.Instance] = o.Verdict
+	}
+	for _, o := range R2.Obs {
+		v2[o.Rule+"/"+o.Construct+"/"+o.Instance] = o.Verdict
+	}
+	var diffs []string
+	for k, v := range v1 {
+		if strings.HasPrefix(k, "internal/") {
+			continue
+		}
+		if w, ok := v2[k]; !ok {
+			diffs = append(diffs, k+" missing in second configuration")
+		} else if w != v {
+			diffs = append(diffs, fmt.Sprintf("%s: %s vs %s", k, v, w))
+		}
+	}
+	for k := range v2 {
+		if _, ok := v1[k]; !ok {
+			diffs = append(diffs, k+" only in second configuration")
+		}
+	}
+	sort.Strings(diffs)
+	c.R.Rule("second-config", "the same obligations with the same verdicts result for GOARCH=386 with test variants loaded", 1)
+	if len(diffs) == 0 {
+		c.R.Held("second-config", "(tree)", "GOARCH=386+tests", "", fmt.Sprintf("%d obligations identical in both configurations", len(v2)))
+	} else {
+		if len(diffs) > 8 {
+			diffs = diffs[:8]
+		}
+		c.R.Unproven("second-config", "(tree)", "GOARCH=386+tests", "", "verdicts differ between build configurations", diffs...)
+	}
+	c.R.Analysed["second_config_packages"] = len(P2.Pkgs)
+}
